@@ -43,6 +43,19 @@ def marker(i):
     return bytes([2, 1, 9, 2, 0x4c, i, 1])
 
 
+PROBLEMS = []          # sources / values the compiler unexpectedly rejected while the harness was building its inputs
+
+
+def src_bytes(T, source: str) -> bytes:
+    """compile a source the property takes for granted; a rejection is recorded (reported as a violation) and replaced by `true`"""
+    try:
+        return T.Script.from_src(source).bytes
+    except BaseException as e:
+        if isinstance(e, (KeyboardInterrupt, SystemExit)): raise
+        PROBLEMS.append((source if len(source) < 300 else source[:120] + f'... ({len(source)} chars)', type(e).__name__ + ': ' + str(e)[:120]))
+        return b'\x01'
+
+
 class LeafSpec:
     def __init__(self, i, body, prefix=b''):
         self.i, self.code, self.prefix = i, marker(i) + body, prefix
@@ -59,8 +72,14 @@ def leaf_specs(rng, T, n, sf, base=0):
         elif r < .5: body = T.Script.from_src(rng.choice(['push d1 push d1 equal', 'push d1 push d2 less', 'push x0102 size push d2 equal verify pop0 true'])).bytes
         elif r < .58: body = T.Script.from_src(rng.choice(['pop0 pop0 pop0 pop0 true', 'false verify true', 'push d1 push d0 div_ints'])).bytes
         elif r < .66: body = T.Script.from_src(rng.choice(['true return false', 'false return true', 'true if { return } false'])).bytes
-        elif r < .74: body = T.Script.from_src('push x' + V.rbytes(rng, rng.choice([255, 256, 300])).hex() + ' pop0 true').bytes
+        elif r < .74: body = src_bytes(T, 'push x' + V.rbytes(rng, rng.choice([255, 256, 300])).hex() + ' pop0 true')
         elif r < .8: body = T.Script.from_src('def 0 { true } call d0').bytes
+        elif r < .86:
+            # a leaf whose *whole script* has a length on a push-size boundary (the unlocking script pushes the leaf script)
+            total = rng.choice([255, 256, 257, 127, 128])
+            padlen = total - 7 - 3 - 2            # marker, PUSH1 header (+1 if PUSH2), `pop0 true`
+            if padlen > 255: padlen -= 1
+            body = (bytes([3, padlen]) if padlen < 256 else bytes([4, 0, padlen])) + V.rbytes(rng, padlen) + bytes([6, 1])
         else:
             seed = V.rbytes(rng, 32)
             body = T.make_single_sig_lock(bytes(SigningKey(seed).verify_key)).bytes
@@ -109,7 +128,7 @@ def proof_pairs(T, leaf):
 
 
 def push(T, b):
-    return T.Script.from_src('push x' + b.hex()).bytes
+    return src_bytes(T, 'push x' + b.hex())
 
 
 def serialise(T, pairs):
@@ -286,6 +305,43 @@ def run(ctx: Ctx) -> Result:
             if ok != auth([l.script.bytes], record=False)[0]:
                 B.viol('unpacked tree: a leaf\'s unlocking script no longer unlocks the tree\'s lock', {**inp, 'leaf': i, 'scripts': [u.hex(), lockb.hex()]}, 'own verdict', o[:80])
 
+    # ---------------------------------------------------------------- build-and-query histories: a tree that grows after it was asked for proofs
+    for it in range(ctx.n(6, 40)):
+        cs = [marker(70 + j) + T.Script.from_src(rng.choice(['true', 'false', 'push d1 push d1 equal'])).bytes for j in range(5)]
+        def fresh():
+            sub_ = T.ScriptNode(T.ScriptLeaf.from_code(cs[0]), T.ScriptLeaf.from_code(cs[1]))
+            return sub_
+        how = rng.choice(['node-left', 'node-right', 'prioritized'])
+        def grow(sub_):
+            if how == 'node-left': return T.ScriptNode(sub_, T.ScriptLeaf.from_code(cs[2]))
+            if how == 'node-right': return T.ScriptNode(T.ScriptNode(T.ScriptLeaf.from_code(cs[2]), T.ScriptLeaf.from_code(cs[3])), sub_)
+            return T.make_script_tree_prioritized([T.Script.from_bytes(cs[2]), T.Script.from_bytes(cs[3])], sub_)
+        try:
+            ref = grow(fresh())                                     # built in one go, never queried before it was complete
+            ref_unl = [l.unlocking_script().bytes for l in all_leaves(T, ref)]
+            sub = fresh()
+            early = [l.unlocking_script().bytes for l in all_leaves(T, sub)]       # proofs against the small tree
+            _ = sub.locking_script().bytes
+            top = grow(sub)                                         # ... which then becomes a subtree
+            if rng.random() < .5: top = T.ScriptNode(top, T.ScriptLeaf.from_code(cs[4])); ref = T.ScriptNode(ref, T.ScriptLeaf.from_code(cs[4])); ref_unl = [l.unlocking_script().bytes for l in all_leaves(T, ref)]
+            got_unl = [l.unlocking_script().bytes for l in all_leaves(T, top)]
+        except BaseException as e:
+            if isinstance(e, (KeyboardInterrupt, SystemExit)): raise
+            B.viol('building a tree from an already-queried subtree raised', {'how': how, 'leaves': [c.hex() for c in cs]}, 'a tree', type(e).__name__); continue
+        res.note_case(('grow', how, it))
+        inp = {'history': f'subtree of 2 leaves queried for proofs, then grown ({how})', 'leaves': [c.hex() for c in cs]}
+        lockb = top.locking_script().bytes
+        if top.root() != ref.root() or got_unl != ref_unl:
+            k = next((i for i, (a, b_) in enumerate(zip(got_unl, ref_unl)) if a != b_), -1)
+            B.viol('a tree grown from a subtree that had already been asked for proofs differs from the same tree built in one go', {**inp, 'leaf': k},
+                   ref_unl[k].hex()[:160] if k >= 0 else ref.root().hex(), got_unl[k].hex()[:160] if k >= 0 else top.root().hex())
+            continue
+        for i, (l, u) in enumerate(zip(all_leaves(T, top), got_unl)):
+            own = auth([l.script.bytes], record=False)[0]
+            ok, o, tapes = auth([u, lockb])
+            if ok != own:
+                B.viol('grown tree: a committed leaf cannot be run with its own verdict', {**inp, 'leaf': i, 'scripts': [u.hex(), lockb.hex()]}, own, o[:80])
+
     # ---------------------------------------------------------------- the embedder's configuration reaches the leaf (own verdict under the same flags)
     N = {'CTS': 37, 'GETV': 64}
     for it in range(ctx.n(30, 300)):
@@ -371,6 +427,9 @@ def run(ctx: Ctx) -> Result:
             except BaseException as e:
                 B.viol(f'{kind} tree, {n} leaves: pack / unpack raised', inp, 'round trip', type(e).__name__)
 
+    for source, err in PROBLEMS[:5]:
+        B.viol('the compiler rejected a source the tree classes need (a committed branch could not be given an unlocking script)', {'source': source}, 'compiles', err)
+    del PROBLEMS[:]
     # ---------------------------------------------------------------- model
     B.finish()
     if ctx.driver.available and tree_lines:
